@@ -58,11 +58,12 @@ def str_lit(rng, maxlen=12, body=None):
         if k < 0.7:
             out += rng.choice("abcdefghij XYZ0123456789#;(){}=+-*/<>!:,.'").encode()
         elif k < 0.85:
-            out += rng.choice(ESCAPES).encode()
+            out += (rng.choice(ESCAPES) if rng.random() < 0.85 else rng.choice(["\\\\", "x\\\\", "\\\\\\\""])).encode()
         elif k < 0.95:
             out += rng.choice(["é", "€", "😀", " ", "\u0085", "ż"]).encode()
         else:
-            out += bytes([rng.choice([0x80, 0xff, 0xc2, 0xe2, 0x04, 0x7f, 0x09])])
+            # raw bytes, including every layout character but LF: inside the quotes none of them is layout
+            out += bytes([rng.choice([0x80, 0xff, 0xc2, 0xe2, 0x04, 0x7f, 0x09, 0x0d, 0x0b, 0x0c, 0x0d, 0x00])])
     out += b'"'
     return bytes(out)
 
